@@ -1,3 +1,42 @@
 (* C19 — property theorems (statements only; proofs live in Proofs*.v). *)
 From Coq Require Import ZArith List Bool.
-Require Import QV.C19.Model QV.C19.Spec.
+Require Import QV.C19.Model QV.C19.Spec QV.C19.Proofs.
+Import ListNotations.
+Open Scope Z_scope.
+
+(* Decision level, all layouts / all new-segment lists (no bound on either): whenever the model of
+   find_place_for_segments_in_memory returns a decision, the four clauses of Spec.decision_ok hold:
+   reuse only on equal hash; overwritten slots have reference count 0, are not reused by this upload, are large enough
+   and pairwise distinct; the appended segments (+16 each) fit behind the last used slot; every new segment is exactly
+   one of reused / inserted / appended.  Hypothesis: reference counts are counts (>= 0). *)
+Theorem C19_decision : forall mem new_hashes new_lens d,
+  Forall (fun r => 0 <= r) (m_refs mem) ->
+  find_place mem new_hashes new_lens = Ok d -> decision_ok mem new_hashes new_lens d.
+Proof. exact find_place_decision_ok. Qed.
+Print Assumptions C19_decision.
+
+(* the hypotheses are satisfiable on a layout where reuse, insertion (equal and larger slot) and appending all occur *)
+Theorem C19_decision_nonvacuous :
+  Forall (fun r => 0 <= r) (m_refs ex_mem) /\
+  find_place ex_mem ex_new_hashes ex_new_lens =
+  Ok {| d_w2s := [1; -1; -1; -1]; d_amend := [false; false; false; true]; d_insert := [-1; 2; 3; -1] |}.
+Proof. exact (conj ex_refs_nonneg ex_decision). Qed.
+Print Assumptions C19_decision_nonvacuous.
+
+(* the hypothesis is needed: with a negative reference count clause 3 fails *)
+Theorem C19_decision_needs_nonneg_refcounts :
+  exists mem nh nl d, find_place mem nh nl = Ok d /\ ~ decision_ok mem nh nl d.
+Proof. exists neg_mem, [2; 3], [1024; 208]. exact negative_refcount_breaks_clause3. Qed.
+Print Assumptions C19_decision_needs_nonneg_refcounts.
+
+(* find_positions: every answer is -1 or an index holding the searched value *)
+Theorem C19_find_positions_sound : forall data to_find j p,
+  nth_error (find_positions data to_find) j = Some p ->
+  p = -1 \/ exists i x, p = Z.of_nat i /\ (i < length data)%nat /\ nth i data 0 = x /\ nth_error to_find j = Some x.
+Proof. exact find_positions_spec. Qed.
+Print Assumptions C19_find_positions_sound.
+
+(* the `assert` in the code never fires *)
+Theorem C19_no_assertion_error : forall mem nh nl, find_place mem nh nl <> Err AssertionFailed.
+Proof. exact find_place_no_assertion. Qed.
+Print Assumptions C19_no_assertion_error.
